@@ -77,7 +77,7 @@ PROPS = {
     "C04": dict(
         engine="TestC04",
         lean_modules=["S2S.Props.C04"],
-        required_theorems=["C04_refuted_target_break", "C04_refuted_source_restart", "C04_refuted", "C04_partial_fault_free"],
+        required_theorems=["C04_refuted_target_break", "C04_refuted_source_restart", "C04_refuted", "C04_partial_fault_free", "C04_modulo_known_findings"],
         rule=ROUTING_RULE + " Focus C04: 1-4 faults per trace (target-stream break, source-stream break, reconnect immediately or late) at random op "
              "boundaries, with gated targets so that queued and in-hand messages die with the stream; monitor: C01's statement with confirmation by any "
              "incarnation; violations are attributed to a known finding only by the structural rule recorded in known_findings.json.",
